@@ -263,9 +263,18 @@ def seam_snapshot(S, P, w):
         c = S.minimize_calls[0]
         V = [v.name for v in P.variables]
         probe = np.array([PROBE[n] for n in V])
+        def hess_at(h):
+            # the Hessian callable is CALLED: a stale one (other variable list, other objective) shows as a wrong shape / other numbers
+            if h is None:
+                return None
+            try:
+                hv = np.asarray(h(probe), dtype=float)
+                return {"shape": list(hv.shape), "values": np.round(hv, 9).tolist()}
+            except Exception as ex:
+                return {"raised": type(ex).__name__}
         out = {"route": "minimize", "method": c["method"], "V": V, "fun": float(c["fun"](probe)),
                "jac": None if c["jac"] is None else np.asarray(c["jac"](probe), dtype=float).tolist(),
-               "hess": c["hess"] is not None, "bounds": None if c["bounds"] is None else [list(b) for b in c["bounds"]],
+               "hess": hess_at(c["hess"]), "bounds": None if c["bounds"] is None else [list(b) for b in c["bounds"]],
                "x0": np.asarray(c["x0"], dtype=float).tolist(),
                "constraints": [[d["type"], float(d["fun"](probe)), np.asarray(d["jac"](probe), dtype=float).tolist()] for d in (c["constraints"] or [])]}
         return out
@@ -436,6 +445,17 @@ def run(rep: vk.Report):
                     seqs.append(setup + (sa, ed, sb))
             else:
                 seqs.append(setup + (sa, ed, sb))
+    # state, SOLVE, edit, EDIT, SOLVE: two consecutive structural edits with nothing read in between (what the second edit may
+    # rely on - the variable list, a cache - was already dropped by the first), for every pair of objective / constraint edits
+    structural = [L for L in edits if L[:3] in ("min", "max", "sub") or L == "read"]
+    for setup, sv in [(("min3",), ["s:trust-constr", "s:SLSQP"]), (("min2", "subj5"), ["s:trust-constr", "s:auto"]), (("max1",), ["s:auto"])]:
+        for sa in sv:
+            pairs2 = list(itertools.product(structural, structural))
+            if rep.tier == "quick":
+                rng.shuffle(pairs2)
+                pairs2 = pairs2[:len(pairs2) // 2]
+            for e1, e2 in pairs2:
+                seqs.append(setup + (sa, e1, e2, sa))
     n_long = 400 if rep.tier == "quick" else 20000
     for _ in range(n_long):
         seqs.append(tuple(rng.choice(LETTERS) for _ in range(rng.randint(4, 8))))
@@ -456,7 +476,16 @@ def run(rep: vk.Report):
     found = 0
     tried_w = 0
     seen_kinds = set()
-    for i in sorted(fails, key=lambda i: len(cases.meta[i]["sequence"]))[:800]:
+    by_len = sorted(fails, key=lambda i: len(cases.meta[i]["sequence"]))
+    if len(by_len) > 800:
+        # the tie is broken almost everywhere (e.g. a cache moved): the shortest histories alone say little - take the 300 shortest
+        # and an even spread over the rest, histories with at least two solves first (staleness needs solve ... edit ... solve)
+        rest = by_len[300:]
+        rest.sort(key=lambda i: (-min(2, sum(1 for L in cases.meta[i]["sequence"] if L.startswith("s:"))), len(cases.meta[i]["sequence"])))
+        two = [i for i in rest if sum(1 for L in cases.meta[i]["sequence"] if L.startswith("s:")) >= 2]
+        step_ = max(1, len(two) // 1500)
+        by_len = by_len[:300] + two[::step_][:1500] + rest[:200]
+    for i in by_len[:2000]:
         if found >= 12:
             break
         seq, variant = cases.meta[i]["sequence"], cases.meta[i]["world"]
